@@ -1,6 +1,7 @@
 import PV.Expr.Syntax
+import PV.C11.Spec
 /-
-  C11 — the fragment for which the round trip `parseRef (unparse e) = e` is PROVED
+  C11 — the fragments for which the round trip `parseRef (unparse e) = e` is PROVED
   (`PV.C11.parse_unparse_partial`): the operator core of the expression language.
 
     Name, every constant (numbers, strings, bytes, `None`, `True`, `False`, `...`), Attribute,
@@ -56,5 +57,163 @@ end
 def InFragment (e : Expr) : Prop := inFrag e = true
 
 instance (e : Expr) : Decidable (InFragment e) := inferInstanceAs (Decidable (_ = true))
+
+/-! ## the extended fragment
+
+  Everything the grammar can build out of: the operator core above, **Starred** elements in displays, call
+  arguments, `yield` and subscripts, **keyword / `**` call arguments**, **Slice / tuple-of-slices subscripts**,
+  **Lambda** with every parameter kind, the four **comprehension** forms (several `for` / `if` clauses, `async`),
+  and **NamedExpr**.  Positions (`XPos`) say what may stand where, as in `wf`, a little finer:
+
+  * `plain`      an operand (`Test`): no `Starred`, no `Slice`;
+  * `elem`       element of a display / argument list / `yield` value / list-comprehension element: `Starred` allowed;
+  * `sub`        directly under `Subscript`: `Slice`, `Starred`, a bare `NamedExpr`, a tuple of `subElem`s;
+  * `subElem`    element of the tuple directly under `Subscript`: `Slice`, `Starred`, operand;
+  * `target`     comprehension target (`ExpressionList` in front of `in`): an `Expression`-level operand (no lambda,
+                 conditional, `and` / `or` / `not`, comparison, named expression — the unparser renders the target at
+                 tuple level, so those would come out bare), `Starred`, or a bare tuple of `targetElem`s;
+  * `targetElem` element of a bare target tuple: `Expression`-level operand or `Starred`.
+
+  Side conditions the parser checks when it builds the node (`function.rs`) are part of the fragment: a lambda's
+  positional parameters have no default-less parameter after a defaulted one and all parameter names are distinct
+  (`validPosParams`, `validParamNames`), the keyword names of a call are distinct (`kwFresh`).
+  Not in the fragment: f-string literals (`JoinedStr` / `FormattedValue`). -/
+
+inductive XPos where
+  | plain | elem | sub | subElem | target | targetElem
+deriving DecidableEq, Repr
+
+/-- not a comprehension-target position -/
+def XPos.notTarget : XPos → Bool
+  | .target | .targetElem => false
+  | _ => true
+
+/-- the position of the elements of a tuple standing at this position -/
+def XPos.tupleElem : XPos → XPos
+  | .sub => .subElem
+  | .target => .targetElem
+  | _ => .elem
+
+/-- `parse_args`: a keyword name must not repeat an earlier one (`seen` = the names so far) -/
+def kwFresh (seen : List Ident) : List Keyword → Bool
+  | [] => true
+  | .mk (some n) _ :: ks => !seen.contains n && kwFresh (seen ++ [n]) ks
+  | .mk none _ :: ks => kwFresh seen ks
+
+/-- the checks of `validate_pos_params` / `validate_arguments` on a lambda's parameter list -/
+def lambdaOk (po ar : List Param) (va : Option Ident) (ko : List Param) (kw : Option Ident) : Bool :=
+  PV.C11.validPosParams (po ++ ar) &&
+    PV.C11.validParamNames { posonly := po, args := ar, vararg := va, kwonly := ko, kwarg := kw }
+
+mutual
+def fx : XPos → Expr → Bool
+  | _, .name _ => true
+  | _, .const _ => true
+  | q, .boolOp _ vs => q.notTarget && decide (2 ≤ vs.length) && fxList .plain vs
+  | q, .namedExpr t v => (q != .target && q != .targetElem) && isName t && fx .plain v
+  | _, .binOp l _ r => fx .plain l && fx .plain r
+  | q, .unaryOp o e => (q.notTarget || o != .not) && fx .plain e
+  | q, .lambda po ar va ko kw b =>
+    q.notTarget && fxParams po && fxParams ar && fxParams ko && lambdaOk po ar va ko kw && fx .plain b
+  | q, .ifExp t b o => q.notTarget && fx .plain t && fx .plain b && fx .plain o
+  | _, .dict items => fxItems items
+  | _, .set es => !es.isEmpty && fxList .elem es
+  | _, .listComp e gs => fx .elem e && !gs.isEmpty && fxComps gs
+  | _, .setComp e gs => fx .plain e && !gs.isEmpty && fxComps gs
+  | _, .dictComp k v gs => fx .plain k && fx .plain v && !gs.isEmpty && fxComps gs
+  | _, .genExp e gs => fx .plain e && !gs.isEmpty && fxComps gs
+  | _, .await e => fx .plain e
+  | _, .yield none => true
+  | _, .yield (some e) => fx .elem e
+  | _, .yieldFrom e => fx .plain e
+  | q, .compare l ops cs =>
+    q.notTarget && fx .plain l && !cs.isEmpty && decide (ops.length = cs.length) && fxList .plain cs
+  | _, .call f as ks => fx .plain f && fxList .elem as && fxKeywords ks && kwFresh [] ks
+  | _, .formattedValue .. => false
+  | _, .joinedStr _ => false
+  | _, .attribute e _ => fx .plain e
+  | _, .subscript e s => fx .plain e && fx .sub s
+  | q, .starred e => (q != .plain) && fx .plain e
+  | _, .list es => fxList .elem es
+  | q, .tuple es => fxList q.tupleElem es
+  | q, .slice lo hi st => (q == .sub || q == .subElem) && fxOpt lo && fxOpt hi && fxOpt st
+def fxList : XPos → List Expr → Bool
+  | _, [] => true
+  | q, e :: es => fx q e && fxList q es
+def fxOpt : Option Expr → Bool
+  | none => true
+  | some e => fx .plain e
+def fxItems : List DictItem → Bool
+  | [] => true
+  | .mk (some k) v :: is => fx .plain k && fx .plain v && fxItems is
+  | .mk none v :: is => fx .plain v && fxItems is
+def fxComps : List Comp → Bool
+  | [] => true
+  | .mk t i ifs _ :: gs => fx .target t && fx .plain i && fxList .plain ifs && fxComps gs
+def fxParams : List Param → Bool
+  | [] => true
+  | .mk _ d :: ps => fxOpt d && fxParams ps
+def fxKeywords : List Keyword → Bool
+  | [] => true
+  | .mk _ v :: ks => fx .plain v && fxKeywords ks
+end
+
+/-- `e` lies in the extended fragment, as an operand -/
+def InFragmentX (e : Expr) : Prop := fx .plain e = true
+
+instance (e : Expr) : Decidable (InFragmentX e) := inferInstanceAs (Decidable (_ = true))
+
+/-! size of a tree (measure of the induction over the extended fragment) -/
+
+mutual
+def esize : Expr → Nat
+  | .name _ => 1
+  | .const _ => 1
+  | .boolOp _ vs => 1 + esizeList vs
+  | .namedExpr t v => 1 + esize t + esize v
+  | .binOp l _ r => 1 + esize l + esize r
+  | .unaryOp _ e => 1 + esize e
+  | .lambda po ar _ ko _ b => 1 + esizeParams po + esizeParams ar + esizeParams ko + esize b
+  | .ifExp t b o => 1 + esize t + esize b + esize o
+  | .dict items => 1 + esizeItems items
+  | .set es => 1 + esizeList es
+  | .listComp e gs => 1 + esize e + esizeComps gs
+  | .setComp e gs => 1 + esize e + esizeComps gs
+  | .dictComp k v gs => 1 + esize k + esize v + esizeComps gs
+  | .genExp e gs => 1 + esize e + esizeComps gs
+  | .await e => 1 + esize e
+  | .yield none => 1
+  | .yield (some e) => 1 + esize e
+  | .yieldFrom e => 1 + esize e
+  | .compare l _ cs => 1 + esize l + esizeList cs
+  | .call f as ks => 1 + esize f + esizeList as + esizeKeywords ks
+  | .formattedValue v _ none => 1 + esize v
+  | .formattedValue v _ (some s) => 1 + esize v + esize s
+  | .joinedStr vs => 1 + esizeList vs
+  | .attribute e _ => 1 + esize e
+  | .subscript e s => 1 + esize e + esize s
+  | .starred e => 1 + esize e
+  | .list es => 1 + esizeList es
+  | .tuple es => 1 + esizeList es
+  | .slice lo hi st => 1 + esizeOpt lo + esizeOpt hi + esizeOpt st
+def esizeList : List Expr → Nat
+  | [] => 0
+  | e :: es => esize e + esizeList es
+def esizeOpt : Option Expr → Nat
+  | none => 0
+  | some e => esize e
+def esizeItems : List DictItem → Nat
+  | [] => 0
+  | .mk k v :: is => esizeOpt k + esize v + esizeItems is
+def esizeComps : List Comp → Nat
+  | [] => 0
+  | .mk t i ifs _ :: gs => esize t + esize i + esizeList ifs + esizeComps gs
+def esizeParams : List Param → Nat
+  | [] => 0
+  | .mk _ d :: ps => esizeOpt d + esizeParams ps
+def esizeKeywords : List Keyword → Nat
+  | [] => 0
+  | .mk _ v :: ks => esize v + esizeKeywords ks
+end
 
 end PV.Expr
